@@ -9,7 +9,7 @@
       activity, real timers;
    3. TLC judges the recorded scenarios (TraceSys.tla) and searches a linearization of every
       quiescent window of the stress histories (TraceLin.tla)."""
-import json, os, random, re, shutil
+import time, json, os, random, re, shutil
 from common import *
 
 PROPS = {
@@ -167,6 +167,8 @@ def inputs_for(prop, tier):
             items.append({"kind": "forced-merge-vs-get"})
         for nth, keys, vlen, mf in ((2, 4, 10, 100), (3, 12, 10, 100), (6, 12, 10, 1000000), (12, 16, 40, 0), (3, 6, 9000, 100000), (4, 24, 200, 4000)):
             items.append({"kind": "forced-get-during-merge", "nth": nth, "keys": keys, "vlen": vlen, "max_file": mf})
+        for pool, waiters in ((1, 2), (2, 2), (2, 5), (4, 4), (4, 8)):
+            items.append({"kind": "pool-contention", "pool": pool, "waiters": waiters, "rounds": 12 if q else 100})
         for pool, fails in ((1, 1), (1, 3), (2, 2), (2, 5), (4, 4), (4, 9)):
             items.append({"kind": "read-fault", "pool": pool, "fails": fails})
         for i in range(24 if q else 240):
@@ -194,6 +196,16 @@ def inputs_for(prop, tier):
             win = {"window": {"start": 0, "end": 23}}
             items.append({"kind": "at-point", "point": "bg.merge.woke", "config": {"merge": {"policy": win, "check_interval_ms": 40, "triggers": trig}}})
             items.append({"kind": "at-point", "point": "bg.merge.triggered", "config": {"merge": {"policy": win, "check_interval_ms": 40, "triggers": trig}}})
+        # the store has been open for several check intervals before the drop: policy always / never / a window that
+        # contains the current hour / a window that does NOT (whatever the merge task does while it may not merge,
+        # it must still notice the drop), and the same with interval sync
+        hour = time.localtime().tm_hour
+        outside = {"window": {"start": (hour + 12) % 24, "end": (hour + 12) % 24}}
+        for pol in ("always", "never", {"window": {"start": 0, "end": 23}}, outside):
+            items.append({"kind": "idle", "wait_ms": 300, "config": {"merge": {"policy": pol, "check_interval_ms": 30, "triggers": trig}}})
+            items.append({"kind": "idle", "wait_ms": 250, "config": {"merge": {"policy": pol, "check_interval_ms": 40}, "sync": {"interval_ms": 25}}})
+        items.append({"kind": "cycles", "n": 6, "hold_ms": 120, "config": {"merge": {"policy": outside, "check_interval_ms": 25}}})
+        items.append({"kind": "cycles", "n": 6, "hold_ms": 120, "config": {"merge": {"policy": "always", "check_interval_ms": 25, "triggers": trig}, "sync": {"interval_ms": 20}}})
         items.append({"kind": "quick-cycles", "n": 25 if q else 100, "config": far})
         items.append({"kind": "quick-cycles", "n": 25 if q else 100, "config": {"sync": {"interval_ms": 3600000}, "merge": {"policy": "never"}}})
         items.append({"kind": "cycles", "n": 50 if q else 200, "config": {"merge": {"policy": "always", "check_interval_ms": 50}, "sync": {"interval_ms": 20}}})
@@ -220,8 +232,8 @@ def inputs_for(prop, tier):
 LIFE_TRACE_CFG = """SPECIFICATION TSpec
 CONSTANTS
   Policy = "{policy}"
-  I = 1
-  J = 0
+  I = {i}
+  J = {j}
   S = {s}
   Day = 1
   WinFrom = 0
@@ -249,10 +261,15 @@ def life_mechanism(v, files, work, tag):
         f = os.path.join(work, f"life_{pol}_{int(sync)}.ndjson")
         with open(f, "w") as fh:
             fh.write("\n".join(json.dumps(x) for x in evs) + "\n")
-        mx = max(sum(1 for x in e["life"] if x["name"].endswith(".woke")) for e in evs) + 3
-        cfg = write_cfg(f"tracelife_{tag}_{pol}_{int(sync)}.cfg", LIFE_TRACE_CFG.format(policy=pol, s=1 if sync else 0, maxtime=mx))
+        # order only: a merge sleep lasts 1..5 ticks, a sync sleep 2 ticks, so that any ratio of the two periods between
+        # 2/5 and 2 (and the drift of real timers) is explainable; the deadlines are judged on measured times by TraceSys
+        # (without interval sync there is one timer only: I = 1 tick, no jitter)
+        mx = (max(sum(1 for x in e["life"] if x["name"].endswith(".woke")) for e in evs) + 3) * (5 if sync else 1)
+        cfg = write_cfg(f"tracelife_{tag}_{pol}_{int(sync)}.cfg", LIFE_TRACE_CFG.format(policy=pol, s=2 if sync else 0, maxtime=mx,
+                                                                                      i=3 if sync else 1, j=2 if sync else 0))
         r = tlc("TraceLife.tla", cfg, workers=1, env={"TRACE": f, "JAVA_TOOL_OPTIONS": JAVA_OPTS_TRACE}, timeout=600, xmx="3g",
                 metatag=f"trlife-{tag}-{pol}-{int(sync)}")
+        v.cov.setdefault("tracelife_runs", []).append({"config": f"policy={pol} sync={sync}", "scenarios": len(evs), "states": r.distinct, "wall_s": round(r.wall, 1)})
         v.cov["transitions"] += r.generated
         v.cov["states"] += r.distinct
         if r.ok:
